@@ -14,7 +14,8 @@
         zig-zag for signed, u32 variant tags as varint, length-prefixed strings, fixed arrays and
         structs without any framing, trailing bytes rejected) and serde_json (structs as objects
         looked up by field name, unknown fields ignored, duplicate known fields rejected,
-        #[serde(default)] fields may be missing, externally tagged enums).
+        #[serde(default)] fields may be missing, externally tagged enums; a struct or struct
+        variant may also be given as an ARRAY of its fields by position, serde's visit_seq).
         Here: `bin_enc`/`bin_dec` and `json_enc`/`json_dec`, both directed by the shape; a leaf is
         written as its `ser` primitive and read as its `de` primitive, as the code does.
 
@@ -378,7 +379,13 @@ Fixpoint json_dec (s : shape) (j : jv) {struct s} : option sval :=
       else None
     | _ => None end
   | SNewtype _ s' => json_dec s' j
-  | SStruct _ fs => match j with JObj m => omap VSeq (json_dec_fields fs m) | _ => None end
+  (* serde_json::deserialize_struct accepts an object (visit_map) AND an array (visit_seq) *)
+  | SStruct _ fs =>
+    match j with
+    | JObj m => omap VSeq (json_dec_fields fs m)
+    | JArr l => omap VSeq (json_dec_fields_seq fs l)
+    | _ => None
+    end
   | SEnum _ vs =>
     match j with
     | JStr name => json_dec_variant vs name O None
@@ -399,6 +406,18 @@ with json_dec_fields (fs : fields) (m : list (string * jv)) {struct fs} : option
     | _ => None
     end
   end
+(* derived visit_seq: fields by position; when the elements run out, a field is taken from its
+   #[serde(default)] if it has one, else "invalid length"; elements left over after the last
+   field make serde_json's end_seq fail ("trailing characters") *)
+with json_dec_fields_seq (fs : fields) (l : list jv) {struct fs} : option (list sval) :=
+  match fs with
+  | FNil => match l with [] => Some [] | _ :: _ => None end
+  | FCons _ d s r =>
+    match l with
+    | j :: l' => ocons (json_dec s j) (json_dec_fields_seq r l')
+    | [] => if d then ocons (Some VDefault) (json_dec_fields_seq r []) else None
+    end
+  end
 with json_dec_variant (vs : variants) (name : bytes) (k : nat) (payload : option jv) {struct vs} : option sval :=
   match vs with
   | VNil => None
@@ -412,7 +431,53 @@ with json_dec_vkind (kd : vkind) (payload : option jv) {struct kd} : option sval
   | VkUnit => match payload with None | Some JNull => Some (VSeq []) | _ => None end
   | VkNewtype s => match payload with Some j => json_dec s j | None => None end
   | VkStruct fs =>
-    match payload with Some (JObj m) => omap VSeq (json_dec_fields fs m) | _ => None end
+    (* VariantAccess::struct_variant = deserialize_struct: object or array *)
+    match payload with
+    | Some (JObj m) => omap VSeq (json_dec_fields fs m)
+    | Some (JArr l) => omap VSeq (json_dec_fields_seq fs l)
+    | _ => None
+    end
+  end.
+
+(* The ARRAY form: every struct and struct variant written as the array of its field values, in
+   declaration order (what a peer whose serializer writes structs positionally sends; serde_json
+   itself never prints it).  Nothing can be omitted in the middle, so VDefault is not accepted. *)
+Fixpoint json_enc_arr (s : shape) (v : sval) {struct s} : option jv :=
+  match s with
+  | SPrim ser _ => json_enc_prim ser v
+  | STuple n e =>
+    match v with
+    | VSeq l =>
+      if Nat.eqb (length l) n then
+        omap JArr ((fix go (l : list sval) : option (list jv) :=
+                      match l with [] => Some [] | x :: r => ocons (json_enc_arr e x) (go r) end) l)
+      else None
+    | _ => None end
+  | SNewtype _ s' => json_enc_arr s' v
+  | SStruct _ fs => match v with VSeq l => omap JArr (json_enc_arr_fields fs l) | _ => None end
+  | SEnum _ vs => match v with VVar idx p => json_enc_arr_variant vs idx p | _ => None end
+  | SBad _ => None
+  end
+with json_enc_arr_fields (fs : fields) (l : list sval) {struct fs} : option (list jv) :=
+  match fs, l with
+  | FNil, [] => Some []
+  | FCons _ _ s r, v :: l' => ocons (json_enc_arr s v) (json_enc_arr_fields r l')
+  | _, _ => None
+  end
+with json_enc_arr_variant (vs : variants) (k : nat) (p : sval) {struct vs} : option jv :=
+  match vs with
+  | VNil => None
+  | VCons vname kd r =>
+    match k with O => json_enc_arr_vkind kd vname p | S k' => json_enc_arr_variant r k' p end
+  end
+with json_enc_arr_vkind (kd : vkind) (vname : string) (p : sval) {struct kd} : option jv :=
+  match kd with
+  | VkUnit => match p with VSeq [] => Some (JStr (map N_of_ascii (list_ascii_of_string vname))) | _ => None end
+  | VkNewtype s => omap (fun j => JObj [(vname, j)]) (json_enc_arr s p)
+  | VkStruct fs =>
+    match p with
+    | VSeq l => omap (fun a => JObj [(vname, JArr a)]) (json_enc_arr_fields fs l)
+    | _ => None end
   end.
 
 (* serde_json::to_vec: the compact printer, for the byte-exact comparison with the real codec.
@@ -512,6 +577,35 @@ with vkind_smallb (k : vkind) : bool :=
 
 (* THE side condition of the round trips, demanded of Generated.*_shape by GenChecks/C15.v *)
 Definition schema_wf (s : shape) : bool := schema_names_wf s && shape_smallb s.
+
+(* visit_seq acceptance table of a field list: for k = 0 .. number of fields, is an array holding
+   (well-typed values for) the first k fields accepted?  Exactly when every later field carries
+   #[serde(default)].  Compared with the probing deserializer's answers by GenChecks. *)
+Fixpoint all_dflt (fs : fields) : bool :=
+  match fs with FNil => true | FCons _ d _ r => d && all_dflt r end.
+Fixpoint seq_accepts (fs : fields) : list bool :=
+  all_dflt fs :: match fs with FNil => [] | FCons _ _ _ r => seq_accepts r end.
+(* every struct / struct variant of a shape, depth first, with its table; keyed by the struct's
+   name and its first field's name ("Context" names two structs) *)
+Definition first_field (fs : fields) : string := match fs with FNil => EmptyString | FCons n _ _ _ => n end.
+Fixpoint seq_table (s : shape) : list (string * string * list bool) :=
+  match s with
+  | SPrim _ _ | SBad _ => []
+  | STuple _ e => seq_table e
+  | SNewtype _ s' => seq_table s'
+  | SStruct name fs => (name, first_field fs, seq_accepts fs) :: seq_table_fields fs
+  | SEnum _ vs => seq_table_variants vs
+  end
+with seq_table_fields (fs : fields) : list (string * string * list bool) :=
+  match fs with FNil => [] | FCons _ _ s r => (seq_table s ++ seq_table_fields r)%list end
+with seq_table_variants (vs : variants) : list (string * string * list bool) :=
+  match vs with VNil => [] | VCons vn k r => (seq_table_vkind vn k ++ seq_table_variants r)%list end
+with seq_table_vkind (vn : string) (k : vkind) : list (string * string * list bool) :=
+  match k with
+  | VkUnit => []
+  | VkNewtype s => seq_table s
+  | VkStruct fs => (vn, first_field fs, seq_accepts fs) :: seq_table_fields fs
+  end.
 
 (* which value trees a shape can carry.  `opt = true` additionally allows VDefault at fields
    that carry #[serde(default)] (a peer that omits them; only expressible in JSON). *)
@@ -791,6 +885,8 @@ Definition cm_json (m : client_message) : option jv := json_enc client_message_s
 Definition cm_of_json (j : jv) : option client_message :=
   obind (json_dec client_message_shape j) cm_of_val.
 Definition resp_json (r : response) : option jv := json_enc response_shape (resp_to_val r).
+Definition cm_json_arr (m : client_message) : option jv := json_enc_arr client_message_shape (cm_to_val m).
+Definition resp_json_arr (r : response) : option jv := json_enc_arr response_shape (resp_to_val r).
 Definition resp_of_json (j : jv) : option response :=
   obind (json_dec response_shape j) resp_of_val.
 
